@@ -8,9 +8,10 @@ import BufModel.Path
 
   A schema is what bufprotosource exposes of an image: files (path, package, import flag,
   imports with public/weak/unused flags, the seven file options read by PACKAGE_SAME_*),
-  enums with values, messages nested arbitrarily (fields, oneofs, extensions, nested enums and
-  messages), services with RPCs, file-level extensions; every element carries its leading
-  comment text.  An annotation is (rule, file path, source path of the reported location); the
+  enums with values, messages nested arbitrarily (fields of every kind — plain, oneof member,
+  proto3 optional, map, group —, oneofs, extensions, nested enums and messages incl. synthetic map
+  entries and group bodies), services with RPCs, file-level extensions; every element carries its
+  leading comment text.  An annotation is (rule, file path, source path of the reported location); the
   source path is `[]` when the rule reports without a location (nil Location fallback).
 
   `lint opts rules w` runs exactly the rules listed in `rules` (rule selection is C06's job;
@@ -20,6 +21,21 @@ import BufModel.Path
 namespace BufModel.Lint
 open BufModel.Case
 
+/-- A field as the field iterator (`fileFields`, NewLintFieldRuleHandler) hands it to a rule.
+    The KINDS of fields the rule code can tell apart, and how the schema carries them:
+    * plain field, oneof member (`oneofIndex = some i`), proto3 `optional` (`proto3Optional`, the
+      only member of its own synthetic oneof): in `Message.fields`, parent = that message;
+    * map field: in `Message.fields`; its synthetic entry message (`mapEntry = true`, fields `key`
+      and `value`, no comments, no source location) sits in `Message.msgs` at its descriptor index,
+      so `key`/`value` are visited with a map-entry parent (exempt from COMMENT_FIELD and
+      FIELD_LOWER_SNAKE_CASE as coded);
+    * group field: in `Message.fields` with `group = true`, lower-cased group name and EMPTY
+      comment — the declaration's comment belongs to the group's nested message in
+      `Message.msgs` (COMMENT_FIELD skips the field, COMMENT_MESSAGE judges the message);
+    * extension declared inside a message: `Message.exts` (source path tag 6), parent = that message;
+    * FILE-LEVEL extension: `File.exts` (source path `[7, i]`), parent message `none` — every field
+      rule must treat `none` as "not a map entry", never as "skip"
+      (BufProofs.C05.file_extension_reported). -/
 structure Field where
   name : Str
   comment : Str
